@@ -58,11 +58,15 @@ impl OperationTransformVisitor<'_> {
             return;
         }
 
+        // count only the operations that were actually rewritten, not every operation
+        // inspected after the first modification
+        let rewritten = status == Status::Modified;
+
         if status != Status::NotModified {
             self.transform_status.status = status;
         }
 
-        if self.transform_status.status == Status::Modified {
+        if rewritten {
             self.transform_status.telemetry.inc(tag);
         }
     }
